@@ -190,6 +190,84 @@ def main():
                           NAMES[int(a)], NAMES[int(b)], ln.split()[2:], i, model, spec),
                       {"kind": "model-vs-impl", "correspondence": "C06 cell semantics vs _GD_ConvertType", "input": ln, "impl": i, "model": model, "spec": spec},
                       found=False)
+    # ---- callers: the public API paths (putdata A->T, getdata T->R, CONST storage) ----
+    try:
+        exe2 = vlib.build_harness(impl, os.path.join(vlib.VERIF, "harness/C06/apiconv.c"))
+        nv = 24 if not chk.thorough else 160
+        hl = []
+        ml = []
+        meta = []
+        SCONST = {0: 6, 2: 6, 4: 6, 6: 6, 1: 7, 3: 7, 5: 7, 7: 7, 8: 9, 9: 9, 10: 11, 11: 11}
+        for a in range(12):
+            base = src[a] if a < 10 else src[a - 2]
+            for t in range(12):
+                vals = [base[rng.randrange(len(base))] for _ in range(nv)]
+                if a >= 10:
+                    vals = [(v, base[rng.randrange(len(base))]) for v in vals]
+                    hl.append("%d %d %d %s" % (a, t, nv, " ".join("%x %x" % v for v in vals)))
+                else:
+                    hl.append("%d %d %d %s" % (a, t, nv, " ".join("%x" % v for v in vals)))
+                for r in range(12):
+                    for v in vals:
+                        hx = ("%x %x" % v) if a >= 10 else ("%x" % v)
+                        ml.append("C %d %d %d %s" % (a, t, r, hx))
+                        ml.append("C %d %d %d %s" % (a, SCONST[t], r, hx))
+                meta.append((a, t, vals))
+        sd = vlib.scratch("verif-c06api-")
+        # shard the harness over processes
+        import concurrent.futures as cf
+        shards = [hl[i::vlib.NPROC] for i in range(vlib.NPROC)]
+        def runsh(k):
+            d = os.path.join(sd, "s%d" % k); os.makedirs(d, exist_ok=True)
+            return vlib.sh([exe2, d], inp=("\n".join(shards[k]) + "\n").encode(), timeout=1200)
+        with cf.ThreadPoolExecutor(vlib.NPROC) as ex:
+            outs = list(ex.map(runsh, range(vlib.NPROC)))
+        # reassemble per input line
+        per_line = {}
+        for k, (rcx, o) in enumerate(outs):
+            ls = [l for l in o.split("\n") if l.startswith(("R ", "K ", "PUTFAIL"))]
+            per = [l for l in ls if not l.startswith("PUTFAIL")]
+            for j in range(len(shards[k])):
+                per_line[k + j * vlib.NPROC] = per[j * 24:(j + 1) * 24]
+        rcm, mo = vlib.sh([drv], inp=("\n".join(ml) + "\n").encode(), timeout=3000)
+        mo = mo.strip().split("\n")
+        mi = 0
+        napi = 0
+        bad_api = {}
+        for li, (a, t, vals) in enumerate(meta):
+            got = per_line.get(li, [])
+            if len(got) != 24:
+                chk.violation("api-harness", "API harness produced %d lines for %s->%s" % (len(got), NAMES[a], NAMES[t]), {"kind": "harness", "out": got[:3]}, found=False)
+                mi += 12 * len(vals) * 2
+                continue
+            for r in range(12):
+                nc = 2 if r >= 10 else 1
+                rv = got[r].split()[2:]
+                kv = got[12 + r].split()[2:]
+                if rv and rv[0].startswith("SHORT"):
+                    rv = rv[1:]
+                for i, v in enumerate(vals):
+                    exp_raw, exp_k = mo[mi], mo[mi + 1]
+                    mi += 2
+                    napi += 2
+                    g_raw = " ".join(rv[i * nc:(i + 1) * nc])
+                    g_k = " ".join(kv[i * nc:(i + 1) * nc])
+                    if exp_raw != "U" and g_raw != exp_raw:
+                        bad_api.setdefault(("putdata+getdata", a, t, r), []).append((v, g_raw, exp_raw))
+                    if exp_k != "U" and g_k != exp_k:
+                        bad_api.setdefault(("put_constant+get_constant", a, t, r), []).append((v, g_k, exp_k))
+        chk.cov["evaluations"] += napi
+        chk.cov["api_path_evaluations"] = napi
+        for (path, a, t, r), l in sorted(bad_api.items())[:12]:
+            v, g, e = l[0]
+            found_any = True
+            chk.violation("api/%s/%s->%s->%s" % (path, NAMES[a], NAMES[t], NAMES[r]),
+                          "%s: caller %s value bits %s through a %s field read as %s gives %s, the C conversions demand %s (%d such values)" % (
+                              path, NAMES[a], v, NAMES[t], NAMES[r], g, e, len(l)),
+                          {"kind": "impl-vs-spec", "path": path, "caller_type": NAMES[a], "field_type": NAMES[t], "return_type": NAMES[r],
+                           "value_bits": v, "impl": g, "spec": e, "how": "harness/C06/apiconv <scratch>; stdin '<A> <T> <n> <hex...>'"})
+    except vlib.BuildError as e:
+        chk.violation("build", "API harness build failed: " + str(e)[:1500], {"kind": "build"}, found=False)
     if trans_problems and not found_any:
         chk.violation("translator", "translator cannot read src/types.c: " + "; ".join(trans_problems[:3]),
                       {"kind": "translator", "problems": trans_problems, "theorem": "conv_table_all_cells_ok (table no longer regenerable)"}, found=False)
